@@ -5,8 +5,9 @@ import os
 HERE = os.path.dirname(os.path.abspath(__file__))
 VERIF = os.path.dirname(HERE)
 
-Q = "quiescent-point model of asyncio (one external event per step when no callback is runnable); " \
-    "intra-iteration interleavings, timer ties and real I/O are outside the model"
+Q = "asyncio is modelled (FIFO locks, futures, timers as a request phase machine), not verified; the invariants hold " \
+    "under every interleaving of task micro-steps (MReach), the differential validates the model at quiescent points; " \
+    "timer ties, real file-descriptor I/O and wall-clock latency are outside the model"
 Z = "zigpy-provided wire types are modelled by wire footprint and error behaviour"
 
 CHECKS = {
@@ -56,7 +57,9 @@ CHECKS = {
     "C02": dict(
         technique="Lean 4 proof: exceptions as values, the raised outcome of the extractor unreachable, handler "
                   "independence, pending buffer is always a legitimately-waiting prefix (< 65537 bytes); differential "
-                  "rx sessions in every link state with raising handlers and probe frames",
+                  "rx sessions in every link state (reached through public entry points: ACK ladder, connection_made, "
+                  "sends waiting / acknowledged / expired) with raising handlers, probe frames behind filler and directly "
+                  "behind rejected frames",
         text="Kernel-checked: no buffer content drives _extract_frame to an exception other than the two it handles; "
              "handler failures change nothing; what stays buffered is < 7 bytes or the start of a checksum-valid "
              "header's extent, so input always drains. Tied by driving the real receiver with every checksum-valid "
@@ -192,19 +195,23 @@ CHECKS = {
         note="zigpy classes by the fields read; endpoint-0 (ZDO) packets are routed elsewhere and outside the property",
         design="7/C18"),
     "C11": dict(
-        technique="Lean 4 proof: request machine over three FIFO locks (blocking, message, transmit) with an explicit "
-                  "ready queue; lock-discipline invariant (hold flag => head of queue, phase => locks held, unique ids) "
-                  "proved for every reachable state; one-transmitter / one-ACK-waiter theorems; frame lemma; "
-                  "virtual-time differential against real ZBOSS.request tasks",
-        text="Kernel-checked for every event history: at most one request is inside the transmission of its message "
-             "(from taking the message lock to the end of its last fragment's ACK wait) and at most one awaits an ACK, "
-             "so fragments of different messages cannot interleave; task steps write only data frames of their own "
-             "request and never touch sequence number / clock / link flags; a fragment is written only from the "
-             "transmit-lock holder. Tied by comparing real request tasks (1..4 fragments, blocking or not, "
-             "cancellation, expiry, close, loss) with the model per quiescent step, plus a reference-NCP monitor "
-             "(well-formed writes, contiguous fragments, reassembled bytes == request).",
-        note=Q + "; byte-level well-formedness of each write is C05/C09",
-        design="7/C11"),
+        technique="Lean 4 proof: request machine over three FIFO locks (blocking, message, transmit); runReq decomposed "
+                  "into micro-steps; whole-history theorem C11_trace (the complete output log of every event sequence is "
+                  "accepted by the message monitor) via a coupling invariant; every-schedule reachability MReach; "
+                  "transmit lock cannot be taken during an ACK wait; virtual-time differential against real "
+                  "ZBOSS.request tasks with a reference-NCP monitor",
+        text="Kernel-checked for every event history: the whole wire log is accepted by the message monitor - the "
+             "fragments of a message go out in order 0..n-1, the last data frame before fragment f>0 of a request is "
+             "fragment f-1 of the same request (C11_contiguous), an abandoned message is never continued; at most one "
+             "request is inside its transmission and at most one awaits an ACK, in every state the event loop can be in "
+             "under every order of task micro-steps (C11_any_schedule); no task step writes a data frame while an ACK "
+             "wait is pending and an event that is not the matching ACK, the sender's cancellation or the expiry of its "
+             "ACK deadline writes nothing (C11_each_after_ack_or_expiry). Tied by comparing real request tasks (1..4 "
+             "fragments, blocking or not, cancellation, expiry, close, loss) with the model per quiescent step, plus a "
+             "reference-NCP monitor (well-formed writes, contiguous fragments, reassembled bytes == request).",
+        note=Q + "; byte-level well-formedness of each write is C05/C09; 'the NCP receives exactly the request bytes' is "
+             "C11_trace + C09_partition + C10_wire_loopback + the reference-NCP monitor, not one theorem",
+        design="7/C11, 12.1"),
     "C13": dict(
         technique="Lean 4 proof: no-residue invariant (every registered listener belongs to a running request) preserved "
                   "by every primitive, task step and event, for all reachable states; differential with cancellation / "
@@ -212,7 +219,8 @@ CHECKS = {
         text="Kernel-checked for every event history: every registered response listener belongs to a request that is "
              "still running; a finished request (response, timeout, cancellation in any phase, close, loss) has none; a "
              "response resolves the first-registered listener of its command, whose request is running; task steps "
-             "never add listeners. Tied by systematic cancel/expiry scenarios and random schedules on the real code "
+             "never add listeners; the invariant holds under every order of task micro-steps "
+             "(C13_no_residue_any_schedule). Tied by systematic cancel/expiry scenarios and random schedules on the real code "
              "with a listener-count monitor and the model's attribution of every RET.",
         note=Q,
         design="7/C13"),
@@ -223,21 +231,26 @@ CHECKS = {
         text="Kernel-checked for every event history: two blocking requests are never both between taking the blocking "
              "lock and finishing, so no frame of another blocking request can be written while one is in progress; "
              "locks are served strictly first-in first-out; a request not marked blocking never touches the blocking "
-             "lock. Tied by the virtual-time differential and by scenario checks that a non-blocking request is "
+             "lock; exclusivity holds in every state under every order of task micro-steps "
+             "(C14_exclusive_any_schedule). Tied by the virtual-time differential and by scenario checks that a non-blocking request is "
              "written at once while a blocking one only waits for its response.",
         note=Q,
         design="7/C14"),
     "C20": dict(
         technique="Lean 4 proof: step theorems for close / loss / start-after-close over the request machine using a "
-                  "frame lemma for task steps (only writes and completions are emitted, link flags untouched); "
-                  "differential with close / loss at every quiescent point, with and without reset, virtual completion times",
-        text="Kernel-checked: after close no listener is registered, the link is closed, every request that had a "
-             "listener has its future cancelled; a new request is refused in the same step; a second close closes and "
-             "reports nothing; a loss is reported exactly once and not at all during a reset; no other event reports a "
-             "loss or closes. The bound 'every request ends within the ACK wait after close' is checked on the real "
-             "code under the virtual clock (observation monitor) and on the model by the differential, not by a theorem.",
-        note=Q + "; termination bound after close: correspondence + monitor only (partial)",
-        design="7/C20"),
+                  "frame lemma for task steps; Covered invariant (converse of no-residue) and stability of the shut "
+                  "state for every history and every schedule; differential with close / loss at every quiescent point, "
+                  "with and without reset, virtual completion times, late-end monitor",
+        text="Kernel-checked: after close no listener is registered, the link is closed and stays closed whatever "
+             "follows (C20_shut_forever); a new request is refused in the same step; a second close closes and reports "
+             "nothing; a loss is reported exactly once and not at all during a reset; no other event reports a loss or "
+             "closes; once shut, every request still running carries a resolved or cancelled response future in every "
+             "state under every order of task micro-steps (C20_none_awaits_response) and ends at its next task step, a "
+             "request about to transmit ends with RuntimeError (C20_next_step_ends). Not a theorem: that every blocked "
+             "task gets that next step within the ACK wait (no lost wake-up across the three lock queues) - checked on the "
+             "real code under the virtual clock (late-end monitor) and by the differential.",
+        note=Q + "; termination *bound* after close / loss: correspondence + monitor only (partial)",
+        design="7/C20, 12.1"),
 }
 
 NOT_YET = "check not built yet in this revision of /verif (planned, see DESIGN.md section 7)"
